@@ -117,16 +117,52 @@ func TestVerifC18Proc(t *testing.T) {
 		if cfg.MemoryLimitMiB == 0 {
 			soft = 50*(1<<30)/100 - 10*(1<<30)/100
 		}
-		n := 4 + r.IntN(12)
-		refusals := 0
-		for i := 0; i < n; i++ {
-			alloc = []uint64{0, soft - 1, soft, soft + 1, soft * 2}[r.IntN(5)]
+		// a step = (reading, downstream answer, signal, payload shape, items). Shapes: 0 = resource>scope>n items;
+		// zero-item payloads: 1 = completely empty, 2 = a resource only, 3 = resource>scope only, 4 = resource>scope>
+		// empty leaf container (a metric without data points / a profile without samples; logs, traces: as 3).
+		type step struct {
+			alloc        uint64
+			nx           string
+			sig, shape   int
+			items        int
+		}
+		var steps []step
+		if idx < 2 {
+			// corpus: every signal x every shape x both modes x downstream ok / error / permanent error
+			for sig := 0; sig < 4; sig++ {
+				for shape := 0; shape <= 4; shape++ {
+					for _, a := range []uint64{soft - 1, soft} {
+						for _, nx := range []string{"ok", "err", "perm"} {
+							st := step{alloc: a, nx: nx, sig: sig, shape: shape}
+							if shape == 0 {
+								st.items = 2
+							}
+							steps = append(steps, st)
+						}
+					}
+				}
+			}
+		} else {
+			for i, n := 0, 4+r.IntN(12); i < n; i++ {
+				st := step{alloc: []uint64{0, soft - 1, soft, soft + 1, soft * 2}[r.IntN(5)], nx: []string{"ok", "ok", "err", "perm"}[r.IntN(4)], sig: r.IntN(4)}
+				if r.IntN(3) == 0 {
+					st.shape = 1 + r.IntN(4)
+				} else {
+					st.items = 1 + r.IntN(4)
+				}
+				steps = append(steps, st)
+			}
+		}
+		n := len(steps)
+		refusals, zeroFwd := 0, 0
+		for i, st := range steps {
+			alloc = st.alloc
 			ml.CheckMemLimits()
 			refusing := ml.MustRefuse()
 			if refusing != (alloc >= soft) {
 				out.Linef("viol sig=C18/check/refuse-not-iff-latest-above-soft alloc=%d soft=%d", alloc, soft)
 			}
-			nx := []string{"ok", "ok", "err", "perm"}[r.IntN(4)]
+			nx := st.nx
 			switch nx {
 			case "ok":
 				down.err = nil
@@ -136,38 +172,79 @@ func TestVerifC18Proc(t *testing.T) {
 				down.err = consumererror.NewPermanent(errors.New("downstream rejects"))
 			}
 			down.calls, down.same = 0, false
-			sig := r.IntN(4)
-			items := 1 + r.IntN(4)
-			out.Linef("op consume refusing=%d next=%s sig=%d n=%d", vB(refusing), nx, sig, items)
+			sig, items := st.sig, st.items
+			out.Linef("op consume refusing=%d next=%s sig=%d n=%d shape=%d", vB(refusing), nx, sig, items, st.shape)
 			before := c18Read(tel)
 			var err error
 			switch sig {
 			case 0:
 				sentL = plog.NewLogs()
-				lrs := sentL.ResourceLogs().AppendEmpty().ScopeLogs().AppendEmpty().LogRecords()
-				for j := 0; j < items; j++ {
-					lrs.AppendEmpty().Body().SetInt(int64(i))
+				if st.shape != 1 {
+					rl := sentL.ResourceLogs().AppendEmpty()
+					rl.Resource().Attributes().PutInt("case", int64(i))
+					if st.shape != 2 {
+						lrs := rl.ScopeLogs().AppendEmpty().LogRecords()
+						for j := 0; j < items; j++ {
+							lrs.AppendEmpty().Body().SetInt(int64(i))
+						}
+					}
+				}
+				if sentL.LogRecordCount() != items {
+					out.Linef("viol sig=C18/harness/item-count-mismatch")
 				}
 				err = pl.ConsumeLogs(bg, sentL)
 			case 1:
 				sentT = ptrace.NewTraces()
-				ss := sentT.ResourceSpans().AppendEmpty().ScopeSpans().AppendEmpty().Spans()
-				for j := 0; j < items; j++ {
-					ss.AppendEmpty().SetName("s")
+				if st.shape != 1 {
+					rs := sentT.ResourceSpans().AppendEmpty()
+					rs.Resource().Attributes().PutInt("case", int64(i))
+					if st.shape != 2 {
+						ss := rs.ScopeSpans().AppendEmpty().Spans()
+						for j := 0; j < items; j++ {
+							ss.AppendEmpty().SetName("s")
+						}
+					}
+				}
+				if sentT.SpanCount() != items {
+					out.Linef("viol sig=C18/harness/item-count-mismatch")
 				}
 				err = pt.ConsumeTraces(bg, sentT)
 			case 2:
 				sentM = pmetric.NewMetrics()
-				dps := sentM.ResourceMetrics().AppendEmpty().ScopeMetrics().AppendEmpty().Metrics().AppendEmpty().SetEmptyGauge().DataPoints()
-				for j := 0; j < items; j++ {
-					dps.AppendEmpty().SetIntValue(1)
+				if st.shape != 1 {
+					rm := sentM.ResourceMetrics().AppendEmpty()
+					rm.Resource().Attributes().PutInt("case", int64(i))
+					if st.shape != 2 {
+						ms := rm.ScopeMetrics().AppendEmpty().Metrics()
+						if st.shape == 0 || st.shape == 4 {
+							dps := ms.AppendEmpty().SetEmptyGauge().DataPoints()
+							for j := 0; j < items; j++ {
+								dps.AppendEmpty().SetIntValue(1)
+							}
+						}
+					}
+				}
+				if sentM.DataPointCount() != items {
+					out.Linef("viol sig=C18/harness/item-count-mismatch")
 				}
 				err = pm.ConsumeMetrics(bg, sentM)
 			default:
 				sentP = pprofile.NewProfiles()
-				smp := sentP.ResourceProfiles().AppendEmpty().ScopeProfiles().AppendEmpty().Profiles().AppendEmpty().Sample()
-				for j := 0; j < items; j++ {
-					smp.AppendEmpty()
+				if st.shape != 1 {
+					rp := sentP.ResourceProfiles().AppendEmpty()
+					rp.Resource().Attributes().PutInt("case", int64(i))
+					if st.shape != 2 {
+						ps := rp.ScopeProfiles().AppendEmpty().Profiles()
+						if st.shape == 0 || st.shape == 4 {
+							smp := ps.AppendEmpty().Sample()
+							for j := 0; j < items; j++ {
+								smp.AppendEmpty()
+							}
+						}
+					}
+				}
+				if sentP.SampleCount() != items {
+					out.Linef("viol sig=C18/harness/item-count-mismatch")
 				}
 				err = pp.ConsumeProfiles(bg, sentP)
 			}
@@ -196,7 +273,10 @@ func TestVerifC18Proc(t *testing.T) {
 				}
 			} else {
 				if down.calls != 1 || !down.same {
-					out.Linef("viol sig=C18/processor/payload-not-forwarded-unmodified calls=%d same=%v", down.calls, down.same)
+					out.Linef("viol sig=C18/processor/payload-not-forwarded-unmodified calls=%d same=%v items=%d shape=%d", down.calls, down.same, items, st.shape)
+				}
+				if items == 0 && down.calls == 1 {
+					zeroFwd++
 				}
 				if err != down.err {
 					out.Linef("viol sig=C18/processor/downstream-result-not-returned %v", err)
@@ -231,6 +311,7 @@ func TestVerifC18Proc(t *testing.T) {
 			out.Linef("nt")
 		}
 		out.Linef("stat consumes %d", n)
+		out.Linef("stat zero_item_payloads_forwarded %d", zeroFwd)
 		out.Linef("stat refusals %d", refusals)
 		out.Linef("end")
 		out.Flush()
